@@ -95,6 +95,19 @@ def patEnd : List Char := "====== Perf Summary End ======".toList
 def patPre : List Char := "Precompute".toList
 def patLx : List Char := "-LxPreload".toList
 
+/-- the row a line of an open table contributes: table key, cycle count, category - `none` for a line that is not a
+row, an ignored row, or the `Total` row -/
+def rowOf (line : List Char) : Option (String × Nat × String) :=
+  match dataRow line with
+  | none => none
+  | some (name, dg) =>
+    if hasSubL patPre line || hasSubL patLx line then none
+    else
+      let parts := catSplit name.length [] name
+      let k0 := String.ofList (parts.headD [])
+      if k0 == "Total" then none
+      else some (k0 ++ " Cmpt Exec", digitsVal dg, category parts)
+
 /-- `_process_table_line` -/
 def step (s : St) (line : List Char) : St :=
   if s.stop then s
@@ -104,15 +117,9 @@ def step (s : St) (line : List Char) : St :=
   else if hasSubL patStart line then { s with active := true, cur := Table.empty }
   else if !s.active then s
   else if hasSubL patEnd line then { s with active := false, done := s.done ++ [s.cur] }
-  else match dataRow line with
+  else match rowOf line with
     | none => s
-    | some (name, dg) =>
-      if hasSubL patPre line || hasSubL patLx line then s
-      else
-        let parts := catSplit name.length [] name
-        let k0 := String.ofList (parts.headD [])
-        if k0 == "Total" then s
-        else { s with cur := addKernel s.cur (k0 ++ " Cmpt Exec") (digitsVal dg) (category parts) }
+    | some (k, c, cat) => { s with cur := addKernel s.cur k c cat }
 
 def parse (lines : List (List Char)) : St := lines.foldl step {}
 
